@@ -392,7 +392,8 @@ def ref_step(desc, vals, pars, opts=None):
             if dl != 0:
                 term = phi * T * dl * rho[-1] * v[-1] ** 2 / (L * lam * l["rho_crit"])
                 if dl < 0:
-                    alt = vn[-1]  # lane gain: thesis silent, accept "no term" too
+                    # lane gain: eq. 3.8 defines the lane difference as lam_m - lam_mu and is taken literally (signed term);
+                    # the "no term" reading was accepted until round 17 (alt stays None now, see DESIGN section 1 / round 17)
                     lane = "gain"
                 else:
                     lane = "drop"
